@@ -228,11 +228,20 @@ def harness(cx, cfg):
             for i in range(npts):
                 x, y, b = vecs[i]
                 braw = _leaf(b)
+                if not is_sym(braw) and _clip_path_refuted(cx, x, y):
+                    # the code's clip branch (b > 1 or b < -1) was entered only because the solver could not
+                    # decide its feasibility; with the rotated vector of unit length the branch condition is
+                    # contradictory: nothing to decide on this path
+                    cx.drop_obligations("path proved infeasible (|b| > 1 contradicts unit length)")
+                    return
                 ok = cx.check_eq("rotate: rotated vector has unit length", x * x + y * y + braw * braw, 1)
                 if ok:
-                    hy = [symx.real_term(x * x + y * y + braw * braw) == 1]
-                    if cx.check("rotate: sine of the output latitude lies in [-1, 1] (finite output)", sym_and(braw >= -1, braw <= 1), hyps=hy):
+                    # generalised: Rest + B^2 = 1 with Rest = x^2 + y^2 >= 0 gives |B| <= 1
+                    Bz, Rest = z3.Real("Bz!gen"), z3.Real("Rest!gen")
+                    if cx.check("rotate: sine of the output latitude lies in [-1, 1] (finite output)", wrap(z3.And(Bz >= -1, Bz <= 1)),
+                                hyps=[Rest + Bz * Bz == 1, Rest >= 0]):
                         cx.axioms.append(z3.And(braw.t >= -1, braw.t <= 1))
+                        _discharge_clipped(cx, braw)
                 ra_o, dec_o = outs[i]
                 cx.check("rotate: scalar in, scalar out; outputs in degrees",
                          isinstance(ra_o, trig.SAng) and isinstance(dec_o, trig.SAng) and ra_o.k == 1 and dec_o.k == 1)
@@ -299,9 +308,11 @@ def harness(cx, cfg):
             cx.check_eq("eq2sdss: clambda = -arcsin(x), x = cos(ra - node) cos(dec)", probes["arcsin"][1], clon * cd)
             cx.check_eq("eq2sdss: ceta + etapole = arctan2(z, y), z = sin(dec)", probes["arctan2"][1], sd)
             cx.check_eq("eq2sdss: ceta + etapole = arctan2(z, y), y = sin(ra - node) cos(dec)", probes["arctan2"][2], sl * cd)
+            # |x| <= 1 and 1 - x^2 >= 0: 1 - (cos l cos d)^2 = sin^2 l + cos^2 l sin^2 d
+            cx.certify_obligations([("sin^2(lon) + cos^2(lon) sin^2(dec)", [sl, clon * sd])])
             l0, e0 = cl.tolist()[0], ce.tolist()[0]
             if isinstance(l0, trig.SAng) and isinstance(e0, trig.SAng):
-                cx.check("eq2sdss: clambda in [-90, 90], ceta in [-180, 180] degrees", sym_and(l0 >= -90, l0 <= 90, e0 >= -180, e0 <= 180))
+                _atom_range(cx, "eq2sdss: clambda in [-90, 90], ceta in [-180, 180] degrees", sym_and(l0 >= -90, l0 <= 90, e0 >= -180, e0 <= 180), [l0, e0])
                 cx.check("eq2sdss: outputs in degrees", l0.k == 1 and e0.k == 1)
             else:
                 cx.check("eq2sdss: outputs are angles", False)
@@ -319,6 +330,8 @@ def harness(cx, cfg):
             cx.check_eq("sdss2eq: dec = arcsin(z), z = sin(ceta + etapole) cos(clambda)", probes["arcsin"][1], se * cl)
             cx.check_eq("sdss2eq: ra - node = arctan2(y, x), y = cos(ceta + etapole) cos(clambda)", probes["arctan2"][1], ce * cl)
             cx.check_eq("sdss2eq: ra - node = arctan2(y, x), x = -sin(clambda)", probes["arctan2"][2], -sl)
+            # |z| <= 1: 1 - (sin e cos l)^2 = cos^2 e + sin^2 e sin^2 l
+            cx.certify_obligations([("cos^2(eta) + sin^2(eta) sin^2(lambda)", [ce, se * sl])])
             r0, d0 = ra.tolist()[0], dec.tolist()[0]
             if is_sym(r0) and is_sym(d0):
                 cx.check("sdss2eq: ra in [0, 360], dec in [-90, 90]", sym_and(r0 >= 0, r0 <= 360, d0 >= -90, d0 <= 90))
@@ -340,6 +353,75 @@ def harness(cx, cfg):
     finally:
         trig.uninstall()
     raise AssertionError(cfg)
+
+
+def _atom_range(cx, label, goal, angs):
+    """a range claim about angles that are linear forms of inverse-function atoms: decided from the path-condition
+    literals and axioms that mention those atoms, with every other term generalised away (sound: fewer hypotheses)"""
+    names = set()
+    for a in angs:
+        names |= set(a.form)
+    hy = []
+    for h in list(cx.pc) + list(cx.axioms):
+        vs = set(symx.term_vars(h))
+        if vs and vs <= names:
+            hy.append(h)
+        elif vs & names and z3.is_and(h):
+            for c in h.children():
+                cv = set(symx.term_vars(c))
+                if cv and cv <= names:
+                    hy.append(c)
+    if not hy:
+        return cx.check(label, goal)
+    return cx.check(label, goal, hyps=hy)
+
+
+def _clip_path_refuted(cx, x, y):
+    """True when some path-condition literal says t > 1 or t < -1 for a term t with x^2 + y^2 + t^2 = 1 (polynomial
+    identity modulo the path's relations): from Rest + B^2 = 1, Rest >= 0 the literal is contradictory"""
+    from vf import poly
+    xy = symx.real_term(x * x + y * y)
+    for lit in cx.pc:
+        e = lit
+        if z3.is_not(e):
+            e = e.children()[0]
+        if not (z3.is_app(e) and e.decl().kind() in (z3.Z3_OP_LE, z3.Z3_OP_LT, z3.Z3_OP_GE, z3.Z3_OP_GT)):
+            continue
+        a, b = e.children()
+        t = a if z3.is_rational_value(b) else (b if z3.is_rational_value(a) else None)
+        if t is None or z3.is_rational_value(t) or len(symx.term_vars(t)) < 2:
+            continue
+        if not poly.equal(xy + t * t, z3.RealVal(1), cx.rules):
+            continue
+        B, Rest = z3.Real("B!gen"), z3.Real("Rest!gen")
+        sx = z3.Solver()
+        sx.set("timeout", 3000)
+        sx.add(Rest + B * B == 1, Rest >= 0, z3.substitute(lit, (t, B)))
+        if str(sx.check()) == "unsat":
+            cx.stats.queries["unsat"] += 1
+            return True
+    return False
+
+
+def _discharge_clipped(cx, braw):
+    """domain obligations on the clipped value (and on 1 - clipped^2) once |braw| <= 1 is a fact: with braw
+    generalised to a fresh B in [-1, 1] they are statements about an if-then-else of B alone"""
+    if not is_sym(braw):
+        return
+    B = z3.Real("B!gen")
+    keep = []
+    for t, what in cx.obligs:
+        g = z3.substitute(t, (braw.t, B))
+        if set(symx.term_vars(g)) <= {"B!gen"} and ("arcsin" in what or "sqrt" in what):
+            sx = z3.Solver()
+            sx.set("timeout", 3000)
+            sx.add(B >= -1, B <= 1, z3.Not(g))
+            if str(sx.check()) == "unsat":
+                cx.stats.queries["unsat"] += 1
+                cx.notes.setdefault("certified", []).append("%s by generalisation of the clipped value" % what)
+                continue
+        keep.append((t, what))
+    cx.obligs = keep
 
 
 def _leaf(v):
